@@ -39,6 +39,7 @@ type Sim struct {
 	strictKeysend bool
 	provoke       bool // this run may walk into known lnd findings
 	ioEvent       bool // the event being generated carries an injected store fault
+	burstAmp      map[int]bool
 
 	now    time.Time
 	height uint32
